@@ -778,6 +778,9 @@ def build(ir):
       # the same tensor exported twice (schema-valid; e.g. one value returned
       # under two names)
       outputs.append((f'out{len(outputs)}', outputs[0][1]))
+    if sub.get('xout') and 0 in used:
+      # the graph input is also returned as an output (pass-through)
+      outputs.append((f'out{len(outputs)}', x))
     if sub.get('ioorder') == 'rev':
       # subgraph inputs/outputs listed in the opposite order (e.g. the int32
       # ids input before the float input)
